@@ -7,6 +7,9 @@ import (
 	"encoding/binary"
 	"fmt"
 	"sort"
+	"strings"
+
+	"github.com/polynetwork/poly/native"
 
 	"github.com/polynetwork/poly/account"
 	"github.com/polynetwork/poly/common"
@@ -38,6 +41,7 @@ type Sim struct {
 	SetHistory [][]string // consensus sets in force over time (peer ids)
 	badSince   int        // rejected Byzantine submissions since the last committed block
 	LastTrace  *BlockTrace
+	forceFail  map[common.Uint256]bool // transactions that hook H3 fails after their handler ran
 }
 
 // PendingTx is a built transaction plus what the plan meant by it.
@@ -64,7 +68,13 @@ func NewSim(run *kernel.Run, n, followers int, networkID uint32, maxView uint32)
 	if err != nil {
 		return nil, err
 	}
-	s := &Sim{R: run, W: w, NVal: n, Vals: w.InitVals}
+	s := &Sim{R: run, W: w, NVal: n, Vals: w.InitVals, forceFail: map[common.Uint256]bool{}}
+	native.PostInvokeHook = func(sv *native.NativeService, method string) error {
+		if s.forceFail[sv.GetTx().Hash()] {
+			return fmt.Errorf("forced failure after handler %s (simulator, hook H3)", method)
+		}
+		return nil
+	}
 	for i := 0; i < nCands; i++ {
 		s.Cands = append(s.Cands, w.Account(fmt.Sprintf("cand%d", i)))
 	}
@@ -82,7 +92,10 @@ func NewSim(run *kernel.Run, n, followers int, networkID uint32, maxView uint32)
 	return s, nil
 }
 
-func (s *Sim) Close()            { s.W.Close() }
+func (s *Sim) Close() {
+	native.PostInvokeHook = nil
+	s.W.Close()
+}
 func (s *Sim) Prod() *chain.Node { return s.Nodes[0] }
 
 // Peers = every account that can be a consensus peer (validators then candidates).
@@ -328,6 +341,9 @@ func (s *Sim) Submit(st kernel.Step, idx int) *PendingTx {
 	tx := s.BuildTx(st)
 	if tx == nil {
 		return nil
+	}
+	if strings.Contains(st.S, "ff") {
+		s.forceFail[tx.Hash()] = true
 	}
 	p := &PendingTx{Tx: tx, Step: st, Idx: idx}
 	s.Pending = append(s.Pending, p)
